@@ -660,11 +660,49 @@ func c09Exhaustive(e *emitter, r *rng, pool [][]c09Val, maxLen int, sample int) 
 	}
 }
 
+// c09ArgSequences: one or two groups, every sequence of argument values up to maxLen over a pool
+// of values that are hard to tell apart (neighbours above 2^53, int/float twins, numeric text),
+// all numeric aggregates: the ORDER in which the values arrive must not matter for min/max and
+// the exact integers must survive
+func c09ArgSequences(e *emitter, r *rng, pool []c09Val, maxLen int) {
+	fields := []c09Field{{Key: 0}, c09Call1("min", 0), c09Call1("max", 0), c09Call1("sum", 0), c09Call1("count", 0), c09Call1("avg", 0)}
+	var rec func(seq []int)
+	rec = func(seq []int) {
+		if len(seq) > 0 {
+			c := &c09Case{Fields: fields, Limit: -1, B: 1 + r.intn(3)}
+			for i, t := range seq {
+				g := c09B("g")
+				if len(seq) == maxLen && i == 0 {
+					g = c09B("h") // the longest sequences: first pair in a group of its own
+				}
+				c.Pairs = append(c.Pairs, c09Pair{G: []c09Val{g}, K: []c09Val{g}, A: []c09Val{pool[t]}})
+			}
+			if c09InModel(c) {
+				chs := chunkings(r, len(seq), c.B, 1)
+				c09RunNode(c, chs[r.intn(len(chs))])
+				c09Emit(e, c)
+			} else {
+				e.m.OutOfModel++
+			}
+		}
+		if len(seq) == maxLen {
+			return
+		}
+		for t := range pool {
+			rec(append(append([]int{}, seq...), t))
+		}
+	}
+	rec(nil)
+}
+
 var (
 	c09TextPool  = []string{"", "a", "b", "ab", "ba", "abc", "bc", "c", "1", "12", "2", "21"}
 	c09IntPool   = []int64{0, 1, 2, 11, 12, 21, -1, 112}
 	c09FloatPool = []float64{0.5, 1.5, 1.5000001, 1.5000002, 2.25, 10, -1.5, 5.9, 0.25, 3}
 	c09ArgInts   = []int64{0, 1, 2, 3, 5, 7, -2, -5, 10, 100}
+	// integers float64 cannot tell apart (neighbours above 2^53, 2^62): min/max/sum must stay exact
+	c09ArgBigInts = []int64{9007199254740992, 9007199254740993, 9007199254740994, -9007199254740992, -9007199254740993,
+		4611686018427387904, 4611686018427387905, -4611686018427387905, 1, 0}
 	c09ArgFloats = []float64{0.5, 1.5, 2.25, -1.5, 5.9, 0.25, 3, 2.5, -5.9, 10.9, 0.1, 7}
 	c09ArgTexts  = []string{"5", "5.9", "-5", "-5.9", "7", "2.5", "0.25", "12", "x", "", "-6", "3.0"}
 	c09ArgWords  = []string{"x", "y z", "a,b", "", "p|q", "<a&b>", "q\"t"}
@@ -701,6 +739,8 @@ func c09ArgColumn(r *rng, n int, what string) []c09Val {
 		switch what {
 		case "int":
 			out[i] = c09I(pick(r, c09ArgInts))
+		case "bigint":
+			out[i] = c09I(pick(r, c09ArgBigInts))
 		case "float":
 			out[i] = c09F(pick(r, c09ArgFloats))
 		case "mixed":
@@ -823,7 +863,7 @@ func c09RandomNode(e *emitter, r *rng, count int) {
 		kinds := make([]string, na)
 		acols := make([][]c09Val, na)
 		for j := range acols {
-			kinds[j] = pick(r, []string{"int", "int", "float", "float", "mixed", "mixed", "text", "text", "word", "bool"})
+			kinds[j] = pick(r, []string{"int", "int", "float", "float", "mixed", "mixed", "text", "text", "word", "bool", "bigint"})
 			acols[j] = c09ArgColumn(r, n, kinds[j])
 		}
 		for i := 0; i < n; i++ {
@@ -1196,6 +1236,12 @@ func c09CollisionStmts(e *emitter, r *rng) {
 		{{"1", "12"}, {"11", "2"}, {"112", ""}, {"2", "5"}},
 		{{"a", "1"}, {"a1", ""}, {"b", "1"}},
 		{{"A", "b"}, {"a", "B"}, {"aB", ""}, {"ab", ""}},
+		// tuples that coincide under other plausible key encodings: a one-byte length prefix
+		// (wraps at 256), a decimal length prefix without separator, a separator byte
+		{{"a", strings.Repeat("x", 255) + "," + strings.Repeat("y", 44)}, {"a," + strings.Repeat("x", 255), strings.Repeat("y", 44)}},
+		{{"0", "abcdefgh1z"}, {"10abcdefgh", "z"}},
+		{{"a,b", "c"}, {"a", "b,c"}, {"a:b", "c"}, {"a", "b:c"}},
+		{{"a\x00b", "c"}, {"a", "b\x00c"}, {"a|b", "c"}, {"a", "b|c"}},
 	}
 	shapes := [][]c09Src{
 		{c09GroupExprs[0], c09GroupExprs[2]},
@@ -1218,7 +1264,7 @@ func c09CollisionStmts(e *emitter, r *rng) {
 
 func runC09(c *runCtx) error {
 	r := newRng(c.seed)
-	e := newEmitter(c.out, "C09", "From Coq Require Import List String ZArith.\nFrom KV Require Import Spec.Group Corr.C09.\nImport ListNotations.\nOpen Scope string_scope.\n", 300)
+	e := newEmitter(c.out, "C09", "From Coq Require Import List String ZArith.\nFrom KV Require Import Base.Bytes Spec.Group Corr.C09.\nImport ListNotations.\nOpen Scope string_scope.\n", 300)
 	e.m.Rule = "node level: AggregatePlan over scripted child/expressions (tuple sequences over colliding pools, exhaustive up to a length, random typed columns beyond); statement level: random stores x group expressions x aggregate fields x where x limit x batch size; non-trivial = at least two scanned pairs and (at least two groups or a group with several pairs); distinct = distinct Gallina case terms"
 	bt := func(ss ...string) []c09Val {
 		out := make([]c09Val, len(ss))
@@ -1240,6 +1286,10 @@ func runC09(c *runCtx) error {
 	c09Exhaustive(e, r, poolInt, nOther, sample/2)
 	c09Exhaustive(e, r, poolMix, nOther, sample/2)
 	c09Exhaustive(e, r, poolFlt, nOther, sample/2)
+	big := []c09Val{c09I(9007199254740992), c09I(9007199254740993), c09I(9007199254740994), c09I(-9007199254740993), c09I(-9007199254740992), c09I(4611686018427387905), c09I(4611686018427387904)}
+	twins := []c09Val{c09I(2), c09F(2), c09F(2.5), c09B("2"), c09B("2.0"), c09I(3), c09B("-3"), c09F(-3)}
+	c09ArgSequences(e, r, big, 3)
+	c09ArgSequences(e, r, twins, 3)
 	c09CollisionStmts(e, r)
 	c09RandomNode(e, r, nNode)
 	c09RandomStmt(e, r, nStmt)
